@@ -101,27 +101,26 @@ theorem bcsr_toCsr_full [Zero α] [Add α] (A : Bcsr α) (h : A.valid = true) (h
 theorem csr_toCscr_full [Zero α] [Add α] (A : Csr α) (h : A.valid = true) :
     A.toCscr.rows = A.rows ∧ A.toCscr.cols = A.cols ∧ A.toCscr.valid = true ∧
     ∀ i j, i < A.rows → j < A.cols → A.toCscr.entry i j = A.entry i j := by
-  have h' := h
-  simp only [Csr.valid, Bool.or_eq_true, Bool.and_eq_true] at h'
-  rcases h' with ha | ⟨hwf, hs⟩
-  · have ha' := ha
-    simp only [Csr.isArrayless, Bool.and_eq_true, Array.isEmpty_iff] at ha'
-    obtain ⟨⟨hrp, _⟩, _⟩ := ha'
-    have hused : ((List.range A.rows).filter fun i => A.rowBegin i < A.rowEnd i) = [] := by
-      rw [List.filter_eq_nil_iff]
-      intro i _
-      simp [Csr.rowBegin, Csr.rowEnd, hrp]
-    have e : A.toCscr = ⟨A.rows, A.cols, #[0], #[], #[], #[]⟩ := by
-      unfold Csr.toCscr
-      simp only [hused]
-      rfl
-    rw [e]
-    refine ⟨rfl, rfl, by simp [Cscr.valid, Cscr.wf, Cscr.sortedRows, Cscr.usedRows], ?_⟩
-    intro i j _ _
-    rw [arrayless_entry ha]
+  by_cases h0 : A.usedElements = 0
+  · -- the entry-free source (with or without arrays) gives the array-less CSCR container
+    have eT : A.toCscr = ⟨A.rows, A.cols, #[], #[], #[], #[]⟩ := if_pos h0
+    rw [eT]
+    refine ⟨rfl, rfl, rfl, ?_⟩
+    intro i j hi _
+    have hz : A.entry i j = 0 := by
+      rcases valid_cases h with ha | hv
+      · exact arrayless_entry ha i j
+      · exact empty_entry hv h0 hi j
+    rw [hz]
     rfl
-  · obtain ⟨d1, d2, d3, d4⟩ := csr_toCscr_spec A hwf
+  · have h' := h
+    simp only [Csr.valid, Bool.or_eq_true, Bool.and_eq_true] at h'
+    rcases h' with ha | ⟨hwf, hs⟩
+    · exact absurd (arrayless_usedElements ha) h0
+    obtain ⟨d1, d2, d3, d4⟩ := csr_toCscr_spec A hwf
     refine ⟨d1, d2, ?_, d4⟩
+    rcases d3 with d3 | d3
+    · simp [Cscr.valid, d3]
     have hA := (PermuteAux.wf_iff A).1 hwf
     let used := (List.range A.rows).filter fun i => A.rowBegin i < A.rowEnd i
     let rs := used.map A.rowList
@@ -139,16 +138,11 @@ theorem csr_toCscr_full [Zero α] [Add α] (A : Csr α) (h : A.valid = true) :
         have := (List.mem_filter.1 hm).1
         exact List.mem_range.1 this
       exact PermuteAux.sortedRows_pairwise hs hlt
-    have hsT : A.toCscr.sortedRows = C.sortedRows := rfl
+    have eT : A.toCscr = ⟨A.rows, A.cols, C.rowPtr, C.colInd, C.val, used.toArray⟩ := if_neg h0
+    have hsT : A.toCscr.sortedRows = C.sortedRows := by rw [eT]; rfl
     simp [Cscr.valid, d3, hsT, hsC]
 
 /-! ### CSCR → CSR -/
-
-theorem getD_extract0 (a : Array Nat) (n i : Nat) (hi : i < n) : (a.extract 0 n).getD i 0 = a.getD i 0 := by
-  rw [Array.getD_eq_getD_getElem?, Array.getD_eq_getD_getElem?, Array.getElem?_extract]
-  by_cases h : i < a.size
-  · rw [if_pos (by omega), Nat.zero_add]
-  · rw [if_neg (by omega), Array.getElem?_eq_none (by omega)]
 
 theorem cscr_toCsr_full [Zero α] [Add α] (A : Cscr α) (h : A.valid = true) (B : Csr α) (hB : A.toCsr = some B) :
     B.rows = A.rows ∧ B.cols = A.cols ∧ B.valid = true ∧
@@ -166,19 +160,15 @@ theorem cscr_toCsr_full [Zero α] [Add α] (A : Cscr α) (h : A.valid = true) (B
     unfold Cscr.toCsr at hB
     split at hB
     · exact absurd hB (by simp)
-    split at hB
-    · exact absurd hB (by simp)
-    rename_i hne hge
     have hB' := (Option.some.inj hB).symm
     have hsB : B.sortedRows = true := by
-      rw [PermuteAux.sortedRows_iff]
-      intro i hi k hk1 hk2
       subst hB'
+      apply PermuteAux.sortedRows_of_pairwise
+      intro i hi
       change i < A.rows at hi
-      simp only [Csr.rowBegin, Csr.rowEnd] at hk1 hk2
-      rw [getD_extract0 _ _ _ (by omega)] at hk1 hk2
-      simp only [Cscr.sortedRows, List.all_eq_true, List.mem_range, List.mem_range'_1, decide_eq_true_eq] at hs
-      exact hs i (by omega) k ⟨hk1, by omega⟩
+      rw [PermuteAux.ofRows_rowList _ _ _ i (by simpa using hi)]
+      simp only [List.getElem_map, List.getElem_range]
+      exact CscrAux.rowOf_sorted hs i
     simp [Csr.valid, d3, hsB]
 
 /-! ### the relation "container `m` represents the textbook state `s`" -/
